@@ -131,6 +131,8 @@ def run_case(job):
             seps.append(rest)
             if not rest.strip("\n"):
                 rest = ""
+        if not pages and r2["stdout"] != "":
+            msgs.append(f"stdout: nothing is written with -o but standard output carries {r2['stdout'][:60]!r}")
         if todo or rest.strip():
             msgs.append(f"stdout: standard output is not exactly the pages written with -o: unmatched pages "
                         f"{sorted(todo)[:4]}, leftover text {rest[:120]!r}")
